@@ -257,7 +257,6 @@ func (po *parseObserver) observe(data []byte, o []int) []int {
 	// container the document ends in (a digit, a quote, either closing bracket, the last letter of a literal).
 	// What lies beyond len(data) is not input.  Distinct observation tuples are recorded once each (a set).
 	before = panics
-	n = len(data)
 	need := n + len(layoutTails[0])
 	if cap(po.lay) < 2*need {
 		po.lay = make([]byte, 2*need+64)
@@ -286,6 +285,43 @@ func (po *parseObserver) observe(data []byte, o []int) []int {
 		if !bytes.Equal(d, data) {
 			docsIntact = 0
 		}
+		seen := false
+		for _, u := range tuples {
+			if u == t {
+				seen = true
+			}
+		}
+		if !seen {
+			tuples = append(tuples, t)
+		}
+	}
+	// the same array refilled (as in observations 24..28), with a *different* function going first on the Buffer:
+	// two more tuples, each component after one of the other two functions
+	firsts := []func([]byte, *rjson.Buffer){
+		func(d []byte, b *rjson.Buffer) { rjson.Valid(d, b) },
+		func(d []byte, b *rjson.Buffer) { rjson.SkipValue(d, b) },
+		func(d []byte, b *rjson.Buffer) { rjson.SkipValueFast(d, b) },
+	}
+	for x := 1; x <= 2; x++ {
+		var t [5]int
+		t[2], t[4] = -1, -1
+		guard(func() {
+			b := &rjson.Buffer{}
+			refill(b, firsts[(0+x)%3])
+			t[0] = b2i(rjson.Valid(ar, b))
+		})
+		guard(func() {
+			b := &rjson.Buffer{}
+			refill(b, firsts[(1+x)%3])
+			p, err := rjson.SkipValue(ar, b)
+			t[1], t[2] = b2i(err == nil), p
+		})
+		guard(func() {
+			b := &rjson.Buffer{}
+			refill(b, firsts[(2+x)%3])
+			p, err := rjson.SkipValueFast(ar, b)
+			t[3], t[4] = b2i(err == nil), p
+		})
 		seen := false
 		for _, u := range tuples {
 			if u == t {
